@@ -51,6 +51,7 @@ Inductive err :=
 | ESerialize
 | EIncomparable
 | ENotAFunc
+| ENonExhaustive (* no branch of a match applies *)
 | EFuel         (* the model ran out of fuel: never expected on generated cases *)
 | EProbe        (* a marker used by the specification: "this component has been observed" *)
 | EUnmodelled.  (* the case leaves the modelled fragment *)
@@ -97,6 +98,12 @@ Inductive fun2 :=
 | F2SndAdd (k : Z)     (* b + k *)
 | F2Const (z : Z).
 
+(** Predicates on a field (for std.record.filter): [fun name value => ...]. *)
+Inductive pred2 :=
+| P2ValGt (k : Z)          (* value > k *)
+| P2True
+| P2NameEq (s : string).   (* name == s *)
+
 (** Observers: functions from one lazy value to a value. *)
 Inductive obs :=
 (* scalar functions *)
@@ -130,6 +137,12 @@ Inductive obs :=
 | ORemove (k : string)
 | OHasField (k : string)
 | OToArray
+| OFromArray                              (* std.record.from_array x *)
+| OPatHead                                (* x |> match { [h, ..t] => h } *)
+| OPatTail                                (* x |> match { [h, ..t] => t } *)
+| OPatField (k : string)                  (* x |> match { {k = v, ..rest} => v } *)
+| OPatRest (k : string)                   (* x |> match { {k = v, ..rest} => rest } *)
+| ORecFilter (p : pred2)                  (* std.record.filter (fun name value => ...) x *)
 | OMergeR (l : lit) | OMergeL (l : lit)
 (* functions *)
 | OCall (a : atom)
@@ -561,6 +574,48 @@ Section Sem.
         end
     end.
 
+  (** std.record.from_array: a strict fold_left inserting [value] (unevaluated) under the
+      evaluated name [field]; the elements are destructured with the closed pattern
+      [{field, value}]. *)
+  Definition is_binding (fs : list field) : bool :=
+    has_key "field" fs && has_key "value" fs && Nat.eqb (List.length fs) 2.
+
+  Fixpoint from_array_go (elems : list thunk) (acc : list field) : res lval :=
+    match elems with
+    | [] => Ok (VRec acc)
+    | e :: elems' =>
+        bind (ev e) (fun v => bind (as_rec EBlameNeg v) (fun fs =>
+        if negb (is_binding fs) then Err EBlameNeg else
+        bind (bind (prim_record_access "field" fs) ev) (fun vn =>
+        match vn with
+        | VStr name =>
+            bind (prim_record_access "value" fs) (fun x =>
+            match prim_record_insert name x acc with
+            | Ok (VRec acc') => from_array_go elems' acc'
+            | Ok _ => Err EUnmodelled
+            | Err e => Err e
+            end)
+        | _ => Err EBlameNeg
+        end)))
+    end.
+
+  Definition pred2_sem (p : pred2) (name : string) (value : thunk) : res bool :=
+    match p with
+    | P2ValGt k => bind (ev value) (fun v => bind (as_num v) (fun x => Ok (Z.ltb k x)))
+    | P2True => Ok true
+    | P2NameEq s => Ok (String.eqb name s)
+    end.
+
+  (** std.record.filter = to_array |> std.array.filter (fun {field, value} => f field value)
+      |> from_array; the bindings of to_array in the order of the sorted names. *)
+  Fixpoint rec_filter_go (p : pred2) (bs : list (string * thunk)) (acc : list field) : res lval :=
+    match bs with
+    | [] => Ok (VRec acc)
+    | (name, x) :: bs' =>
+        bind (pred2_sem p name x) (fun b =>
+        rec_filter_go p bs' (if b then acc ++ [(name, (x, []))] else acc))
+    end.
+
   (** Equality of a list of pairs, in the given order, stopping at the first difference. *)
   Fixpoint eq_pairs (ps : list (thunk * thunk)) : res lval :=
     match ps with
@@ -755,6 +810,39 @@ Section Sem.
                          TRecLit [("field", TVal (Ok (VStr (fst fl))));
                                   ("value", TObs (OAccess (fst fl)) (TVal (Ok (VRec fs))))])
                     (sort_fields fs)) [])))
+    | OFromArray =>
+        bind (ev t) (fun v => bind (as_arr EBlameNeg v) (fun '(es, p) =>
+        from_array_go (arr_elems es p) []))
+    | ORecFilter q =>
+        bind (ev t) (fun v => bind (as_rec EBlameNeg v) (fun fs =>
+        rec_filter_go q
+          (map (fun fl => (fst fl, TObs (OAccess (fst fl)) (TVal (Ok (VRec fs))))) (sort_fields fs)) []))
+    (* compiled patterns (term/pattern/compile.rs): %array/at%, %array/slice%, static access,
+       %record/remove% on the record as it is (no freeze) *)
+    | OPatHead =>
+        bind (ev t) (fun v =>
+        match v with
+        | VArr (e :: es) p => bind (prim_array_at (e :: es) p 0) ev
+        | _ => Err ENonExhaustive
+        end)
+    | OPatTail =>
+        bind (ev t) (fun v =>
+        match v with
+        | VArr (e :: es) p => prim_array_slice 1 (List.length (e :: es)) (e :: es) p
+        | _ => Err ENonExhaustive
+        end)
+    | OPatField k =>
+        bind (ev t) (fun v =>
+        match v with
+        | VRec fs => if has_key k fs then bind (prim_record_access k fs) ev else Err ENonExhaustive
+        | _ => Err ENonExhaustive
+        end)
+    | OPatRest k =>
+        bind (ev t) (fun v =>
+        match v with
+        | VRec fs => if has_key k fs then prim_record_remove k fs else Err ENonExhaustive
+        | _ => Err ENonExhaustive
+        end)
     | OMergeR l => merge_sem t (thunk_of_lit l)
     | OMergeL l => merge_sem (thunk_of_lit l) t
     | OCall a =>
